@@ -328,6 +328,35 @@ func c20HostFunctions(c *ev.Ctx) {
 			}
 		}
 	}
+	// a name the host registered belongs to the host: a script function of the same name does
+	// not replace it (nor does it replace a built-in), whichever is defined first
+	if c.Want("hostfn/script-function-of-the-same-name") {
+		for vi, script := range []string{
+			`function hostf(a) { return "script:" + string(a); } return [hostf(1), hostf(2)];`,
+			`x = hostf(1); function hostf(a) { return "script"; } return [x, hostf(2)];`,
+			`function hostf(a, b) { return "script"; } return [hostf(1), hostf(2)];`,
+			`function hostf() { return "script"; } function other(n) { return hostf(n); } return [other(1), hostf(2)];`,
+		} {
+			for _, noOpt := range []bool{false, true} {
+				calls := 0
+				evr, err := eng.New(script, eng.Options{NoOptimize: noOpt, Funcs: map[string]func([]object.Object) object.Object{
+					"hostf": func(a []object.Object) object.Object {
+						calls++
+						return &object.String{Value: "host:" + a[0].Inspect()}
+					}}})
+				c.Case(fmt.Sprint("hostfn/same-name", vi, noOpt), true)
+				if err != nil {
+					c.Violation("hostfn/script-function-of-the-same-name", "prepare", map[string]interface{}{"summary": err.Error(), "script": script})
+					continue
+				}
+				o := evr.Exec(nil)
+				b, rerr, _, _ := evr.RunBool(nil)
+				if o.Desc() != "ARRAY:[host:1, host:2]" || calls != 4 || !b || rerr != nil {
+					c.Violation("hostfn/script-function-of-the-same-name", "script function replaces a host function", map[string]interface{}{"summary": fmt.Sprintf("%s (noopt=%v): Execute gives %s %s, Run gives %v err=%v, the host function was called %d times (expected [host:1, host:2], true, 4 calls)", script, noOpt, o.Desc(), errText(o.Err), b, rerr, calls), "script": script})
+				}
+			}
+		}
+	}
 	// a host function replaces a built-in of the same name; calls in loops are counted
 	if c.Want("hostfn/loop") {
 		count := 0
